@@ -33,6 +33,9 @@ pub struct FaultCase {
     pub k: u64,
     /// optionally a second failing operation index (> k): must never be reached
     pub k2: Option<u64>,
+    /// the failing pin write changes the level although it reports failure
+    #[serde(default)]
+    pub late: bool,
 }
 
 fn run_op(d: &mut dyn Dut, op: &FOp) -> Result<(), DutErr> {
@@ -125,6 +128,10 @@ pub fn check(c: &FaultCase, info: &mut CaseInfo) -> Result<(), String> {
     info.nontrivial = true;
     info.label(cfg.transport.label());
     let w = new_world(cfg);
+    w.borrow_mut().late_faults = c.late;
+    if c.late {
+        info.label("late-fault");
+    }
     if let FOp::Init = c.op {
         info.label("init");
         {
@@ -171,14 +178,48 @@ pub fn check(c: &FaultCase, info: &mut CaseInfo) -> Result<(), String> {
     if d.is_sleeping() {
         d.wake().map_err(|e| format!("{}: wake after the fault cleared failed: {:?}", what, e))?;
     }
+    let table = crate::oracle::derive_orientation_bits();
+    let enc = |o: Orient| crate::oracle::madctl_expected(&table, o, cfg.bgr, cfg.refresh_v, cfg.refresh_h);
     let orient = match &c.op {
         FOp::Orientation(o) => {
-            // whether a half-sent orientation change took effect is not fixed by the property: re-issue it
-            d.set_orientation(*o).map_err(|e| format!("{}: set_orientation after the fault cleared failed: {:?}", what, e))?;
-            *o
+            let reported = d.orientation();
+            let in_controller = w.borrow().panel.madctl;
+            if in_controller == enc(reported) {
+                // driver and controller agree on an orientation: drawing must simply work, without a retry
+                info.label("failed-set_orientation:consistent");
+                reported
+            } else if in_controller == enc(cfg.orient) {
+                // nothing reached the controller, yet the driver's own view changed
+                return Err(format!(
+                    "{}: the call failed and the controller still holds the address mode of {:?}, but the display now reports {:?}",
+                    what, cfg.orient, reported
+                ));
+            } else {
+                // half-delivered change (which state that leaves is not fixed by the property): re-issue it
+                d.set_orientation(*o).map_err(|e| format!("{}: set_orientation after the fault cleared failed: {:?}", what, e))?;
+                *o
+            }
         }
         _ => cfg.orient,
     };
+    // in half of the cases: a retry of the orientation change must take effect and keep the colour / refresh bits
+    if let FOp::Orientation(o) = &c.op {
+        if c.k % 2 == 0 {
+            d.set_orientation(*o).map_err(|e| format!("{}: retry of set_orientation failed: {:?}", what, e))?;
+            let m = w.borrow().panel.madctl;
+            if m != enc(*o) {
+                return Err(format!(
+                    "{}: after a retried set_orientation({:?}) the controller holds address mode {:#010b}, expected {:#010b}",
+                    what, o, m, enc(*o)
+                ));
+            }
+            return follow_up(c, cfg, &mut *d, &w, *o, &what);
+        }
+    }
+    follow_up(c, cfg, &mut *d, &w, orient, &what)
+}
+
+fn follow_up(_c: &FaultCase, cfg: &Config, d: &mut dyn Dut, w: &W, orient: Orient, what: &str) -> Result<(), String> {
     let (lw, lh) = cfg.logical_size(orient);
     let mut img = RefImage::new(lw, lh);
     let bits = d.bits();
@@ -231,6 +272,9 @@ fn small_cfg(model: ModelId, t: Transport, reset_pin: bool) -> Config {
     cfg.oy = (fh - cfg.h).min(2);
     cfg.orient = Orient { rot: 1, mirrored: false };
     cfg.reset_pin = reset_pin;
+    // non-default colour / refresh bits: a driver that loses its cached address mode in a failed call shows it
+    cfg.bgr = true;
+    cfg.refresh_v = true;
     cfg
 }
 
@@ -268,7 +312,7 @@ pub fn enumerate(models: &[ModelId], transports: &[Transport], with_init: bool, 
                 if with_init {
                     let n = dry_run(&cfg, &FOp::Init)?;
                     for k in 0..n {
-                        out.push(FaultCase { cfg: cfg.clone(), op: FOp::Init, k, k2: if second_fault && k + 1 < n { Some(k + 1 + (k % 3)) } else { None } });
+                        out.push(FaultCase { cfg: cfg.clone(), op: FOp::Init, k, k2: if second_fault && k + 1 < n { Some(k + 1 + (k % 3)) } else { None }, late: false });
                     }
                 }
                 if with_ops && !reset_pin {
@@ -276,8 +320,167 @@ pub fn enumerate(models: &[ModelId], transports: &[Transport], with_init: bool, 
                         let n = dry_run(&cfg, &op)?;
                         let ks: Vec<u64> = if n <= 5000 { (0..n).collect() } else { (0..200).chain((n - 200)..n).chain((200..n - 200).step_by(((n - 400) / 600).max(1) as usize)).collect() };
                         for k in ks {
-                            out.push(FaultCase { cfg: cfg.clone(), op: op.clone(), k, k2: if second_fault && k + 2 < n { Some(k + 2) } else { None } });
+                            out.push(FaultCase { cfg: cfg.clone(), op: op.clone(), k, k2: if second_fault && k + 2 < n { Some(k + 2) } else { None }, late: false });
+                            if t.pin_level() {
+                                out.push(FaultCase { cfg: cfg.clone(), op: op.clone(), k, k2: None, late: true });
+                            }
                         }
+                    }
+                }
+            }
+        }
+    }
+    Ok(out)
+}
+
+// ---- a failed init must not wedge the *interface*: a second init over the same interface object
+// (handed to the builder as `&mut interface`) has to bring the controller up correctly
+
+#[derive(Clone, Debug, PartialEq, Eq, Hash, Serialize, Deserialize)]
+pub struct ReinitCase {
+    pub cfg: Config,
+    pub k: u64,
+    #[serde(default)]
+    pub late: bool,
+}
+
+struct InitOn<'a, DI> {
+    di: &'a mut DI,
+    cfg: &'a Config,
+    w: &'a W,
+}
+
+fn init_on<DI, M>(di: &mut DI, m: M, cfg: &Config, w: &W) -> Result<(), String>
+where
+    DI: mipidsi::interface::Interface,
+    DI::Error: core::fmt::Debug,
+    M: mipidsi::models::Model,
+    M::ColorFormat: mipidsi::interface::InterfacePixelFormat<DI::Word>,
+{
+    use mipidsi::options::*;
+    let mut clk = crate::rig::Clock { w: w.clone() };
+    let b = mipidsi::Builder::new(m, di)
+        .display_size(cfg.w, cfg.h)
+        .display_offset(cfg.ox, cfg.oy)
+        .orientation(cfg.orient.to_mipidsi())
+        .color_order(if cfg.bgr { ColorOrder::Bgr } else { ColorOrder::Rgb })
+        .invert_colors(if cfg.invert { ColorInversion::Inverted } else { ColorInversion::Normal })
+        .refresh_order(RefreshOrder::new(
+            if cfg.refresh_v { VerticalRefreshOrder::BottomToTop } else { VerticalRefreshOrder::TopToBottom },
+            if cfg.refresh_h { HorizontalRefreshOrder::RightToLeft } else { HorizontalRefreshOrder::LeftToRight },
+        ));
+    let r = std::panic::catch_unwind(std::panic::AssertUnwindSafe(|| {
+        if cfg.reset_pin {
+            b.reset_pin(crate::rig::pin(w, Src::Rst)).init(&mut clk).map(|_| ()).map_err(|e| format!("{:?}", e))
+        } else {
+            b.init(&mut clk).map(|_| ()).map_err(|e| format!("{:?}", e))
+        }
+    }));
+    w.borrow_mut().flush();
+    match r {
+        Ok(r) => r,
+        Err(_) => Err("panicked".into()),
+    }
+}
+
+impl<'a, DI> crate::models::ModelVisitor for InitOn<'a, DI>
+where
+    DI: mipidsi::interface::Interface<Word = u8>,
+    DI::Error: core::fmt::Debug,
+{
+    type Out = Result<(), String>;
+    fn visit<M>(self, _id: ModelId, m: M) -> Self::Out
+    where
+        M: mipidsi::models::Model + 'static,
+        M::ColorFormat: crate::models::HColor + mipidsi::interface::InterfacePixelFormat<u8>,
+    {
+        init_on(self.di, m, self.cfg, self.w)
+    }
+}
+
+impl<'a, DI> crate::models::Model565Visitor for InitOn<'a, DI>
+where
+    DI: mipidsi::interface::Interface<Word = u16>,
+    DI::Error: core::fmt::Debug,
+{
+    type Out = Result<(), String>;
+    fn visit<M>(self, _id: ModelId, m: M) -> Self::Out
+    where
+        M: mipidsi::models::Model<ColorFormat = embedded_graphics_core::pixelcolor::Rgb565> + 'static,
+    {
+        init_on(self.di, m, self.cfg, self.w)
+    }
+}
+
+pub fn check_reinit(c: &ReinitCase, info: &mut CaseInfo) -> Result<(), String> {
+    use crate::models::{dispatch_model, dispatch_model565};
+    use crate::rig::{pin, pins16, pins8, SpiDev};
+    use mipidsi::interface::{Generic16BitBus, Generic8BitBus, ParallelInterface, SpiInterface};
+    crate::dut::install_panic_hook();
+    let cfg = &c.cfg;
+    let w = new_world(cfg);
+    w.borrow_mut().late_faults = c.late;
+    w.borrow_mut().latch_on = true;
+    info.nontrivial = true;
+    info.label(cfg.transport.label());
+    // two inits over one interface object
+    let run = |first: bool, w: &W, f: &mut dyn FnMut() -> Result<(), String>| -> Result<(), String> {
+        if first {
+            w.borrow_mut().fail_at = vec![c.k];
+        } else {
+            w.borrow_mut().begin_epoch();
+        }
+        f()
+    };
+    let (r1, r2) = match cfg.transport {
+        Transport::Spi { buf } => {
+            let mut buffer = vec![0xA5u8; buf as usize];
+            let mut di = SpiInterface::new(SpiDev { w: w.clone() }, pin(&w, Src::Dc), &mut buffer[..]);
+            let r1 = run(true, &w, &mut || dispatch_model(cfg.model, InitOn { di: &mut di, cfg, w: &w }));
+            let r2 = run(false, &w, &mut || dispatch_model(cfg.model, InitOn { di: &mut di, cfg, w: &w }));
+            (r1, r2)
+        }
+        Transport::Par8 => {
+            let mut di = ParallelInterface::new(Generic8BitBus::new(pins8(&w)), pin(&w, Src::Dc), pin(&w, Src::Wr));
+            let r1 = run(true, &w, &mut || dispatch_model(cfg.model, InitOn { di: &mut di, cfg, w: &w }));
+            let r2 = run(false, &w, &mut || dispatch_model(cfg.model, InitOn { di: &mut di, cfg, w: &w }));
+            (r1, r2)
+        }
+        Transport::Par16 => {
+            let mut di = ParallelInterface::new(Generic16BitBus::new(pins16(&w)), pin(&w, Src::Dc), pin(&w, Src::Wr));
+            let r1 = run(true, &w, &mut || dispatch_model565(cfg.model, InitOn { di: &mut di, cfg, w: &w }).unwrap_or(Err("HARNESS: not a 565 model".into())));
+            let r2 = run(false, &w, &mut || dispatch_model565(cfg.model, InitOn { di: &mut di, cfg, w: &w }).unwrap_or(Err("HARNESS: not a 565 model".into())));
+            (r1, r2)
+        }
+        _ => return Err("HARNESS: re-init needs a pin-level transport".into()),
+    };
+    if r1.is_ok() {
+        return Err(format!("init with low-level operation {} failing returned Ok", c.k));
+    }
+    if let Err(e) = r2 {
+        return Err(format!("after an init that failed at operation {}, a second init over the same interface failed: {}", c.k, e));
+    }
+    let wb = w.borrow();
+    let trace: Vec<crate::panel::Tr> = wb.panel.trace.clone();
+    super::c11::judge_panel(&wb, cfg).map_err(|e| format!("second init over the same interface after a failure at operation {}: {}", c.k, e))?;
+    super::c11::judge_reset(&wb, cfg, &trace).map_err(|e| format!("second init over the same interface after a failure at operation {}: {}", c.k, e))?;
+    Ok(())
+}
+
+fn reinit_cases(models: &[ModelId], transports: &[Transport]) -> Result<Vec<ReinitCase>, String> {
+    let mut out = Vec::new();
+    for &model in models {
+        for &t in transports {
+            if !t.pin_level() || !type_compatible(model, t) || !supported(model, t.kind()) {
+                continue;
+            }
+            for reset_pin in [false, true] {
+                let cfg = small_cfg(model, t, reset_pin);
+                let n = dry_run(&cfg, &FOp::Init)?;
+                for k in 0..n {
+                    out.push(ReinitCase { cfg: cfg.clone(), k, late: false });
+                    if k % 3 == 0 {
+                        out.push(ReinitCase { cfg: cfg.clone(), k, late: true });
                     }
                 }
             }
@@ -313,7 +516,7 @@ fn sig(c: &FaultCase, reason: &str) -> String {
 pub fn run(ctx: &Ctx) -> Report {
     let mut rep = Report::new("C12", "fault_enumeration");
     rep.assumptions = vec![
-        "a fault is a single pin write or SPI transaction (or, on the recording interface, one Interface call) returning Err; the level of a failed pin write is unchanged".into(),
+        "a fault is a single pin write or SPI transaction (or, on the recording interface, one Interface call) returning Err; a failed pin write either leaves the level unchanged or (late fault, pin-level transports) changes it although it reports failure".into(),
         "after a failed set_orientation the follow-up re-issues set_orientation before drawing (which orientation a half-sent change leaves is not fixed by the property)".into(),
         "init consumes the builder, so 'the same object still works' applies to post-init operations".into(),
     ];
@@ -347,6 +550,18 @@ pub fn run(ctx: &Ctx) -> Report {
     }
     rep.sections.push(sec);
 
+    let mut sec = Section::new(
+        &format!("re-init[{}]", ctx.variant),
+        "the interface is handed to the builder as `&mut interface`; init fails at low-level operation k (every k), then a second init runs over the same interface object: it must succeed, leave the controller programmed as the options say (C11 oracle) and start with the reset (C17 oracle); SPI, 8-bit and 16-bit parallel at pin level, with and without reset pin, also with late faults",
+    );
+    sec.exhaustive = true;
+    let re_models: Vec<ModelId> = if thorough { builtin_models() } else { vec![ModelId::ST7789, ModelId::ILI9341Rgb666, ModelId::GC9A01, ModelId::ILI9486Rgb565, ModelId::RM67162] };
+    match reinit_cases(&re_models, &[Transport::Spi { buf: 7 }, Transport::Par8, Transport::Par16]) {
+        Ok(cases) => run_enumerated(&mut sec, cases, ctx.workers, check_reinit, |c, _| format!("c12:reinit:{}", c.cfg.transport.label())),
+        Err(e) => sec.violations.push(Violation { reason: e, case: Value::Null, signature: "c12:dry-run-failed".into() }),
+    }
+    rep.sections.push(sec);
+
     if thorough {
         let mut sec = Section::new(&format!("two-fault-plans[{}]", ctx.variant), "as above with a second failing operation armed behind the first: it must never be reached");
         match enumerate(&[ModelId::ST7789, ModelId::ILI9488Rgb666], &op_transports, true, true, true) {
@@ -358,6 +573,9 @@ pub fn run(ctx: &Ctx) -> Report {
     rep
 }
 
-pub fn replay(_section: &str, case: &Value) -> Result<(), String> {
+pub fn replay(section: &str, case: &Value) -> Result<(), String> {
+    if section.starts_with("re-init") {
+        return check_reinit(&de::<ReinitCase>(case)?, &mut CaseInfo::default());
+    }
     check(&de::<FaultCase>(case)?, &mut CaseInfo::default())
 }
